@@ -179,3 +179,76 @@ package execution
 //@   use cmpAnti(a[exit(CompareValueSlices(c, a), "i", 1)], b[exit(CompareValueSlices(c, a), "i", 1)])
 //@   use cmpAnti(b[exit(CompareValueSlices(c, a), "i", 1)], c[exit(CompareValueSlices(c, a), "i", 1)])
 //@   use cmpAnti(a[exit(CompareValueSlices(c, a), "i", 1)], c[exit(CompareValueSlices(c, a), "i", 1)])
+
+// C09/C17: the orders of the trigger containers. GroupKey.Less — the btree order of bare group keys and of items that
+// embed one — is CompareValueSlices on the two keys (the item's key is fetched through GroupKeyIface: closed-world
+// dispatch over the module's implementers). watermarkTriggerKey.Less is time-major: by event instant first (as an
+// instant: zone and monotonic reading play no part), then by group key — the btree theory's time-major class order
+// for this item type rests on exactly this postcondition.
+//@ func GroupKey.Less
+//@   requires dyn: itag(than) == typeid(GroupKey) || itag(than) == typeidptr(countingTriggerItem)
+//@   requires valid: validVs(key) && (itag(than) == typeid(GroupKey) ==> validVs(deref(asptr(than, GroupKey)))) && (itag(than) == typeidptr(countingTriggerItem) ==> iref(than) > 0 && validVs(asptr(than, countingTriggerItem).GroupKey))
+//@   pure
+//@   ensures less.key: itag(than) == typeid(GroupKey) ==> result == sless(key, deref(asptr(than, GroupKey)))
+//@   ensures less.item: itag(than) == typeidptr(countingTriggerItem) ==> result == sless(key, asptr(than, countingTriggerItem).GroupKey)
+//@ func watermarkTriggerKey.Less
+//@   requires itag(than) == typeid(watermarkTriggerKey) && validVs(key.GroupKey) && validVs(deref(asptr(than, watermarkTriggerKey)).GroupKey)
+//@   pure
+//@   ensures lex: result == (key.Time.ns < deref(asptr(than, watermarkTriggerKey)).Time.ns || (key.Time.ns == deref(asptr(than, watermarkTriggerKey)).Time.ns && sless(key.GroupKey, deref(asptr(than, watermarkTriggerKey)).GroupKey)))
+
+// C17: the watermark trigger. timeKeys holds one boxed watermarkTriggerKey per (event instant, group key) pair seen
+// and not yet triggered; the item's Time is the key's event-time column. Class of an item: kpair(instant, key class),
+// ordered time-major (kpart 0 is monotone in the class order).
+//@ spec wk(c *WatermarkTrigger, key GroupKey) int = kpair(watermarkTriggerKey, key[c.timeFieldKeyIndex].Time.ns, cls(key))
+//@ spec ktime(k int) int = kpart(watermarkTriggerKey, 0, k)
+//@ spec wtRI(c *WatermarkTrigger) bool = addr(c.timeKeys) > 0 && c.timeFieldKeyIndex >= 0 && forallK(k, thas(c.timeKeys, k) ==> ttag(c.timeKeys, k) == typeid(watermarkTriggerKey) && 0 < addr(tget(c.timeKeys, k, watermarkTriggerKey)) && addr(tget(c.timeKeys, k, watermarkTriggerKey)) < frontier() && kpair(watermarkTriggerKey, kpart(watermarkTriggerKey, 0, k), kpart(watermarkTriggerKey, 1, k)) == k && deref(tget(c.timeKeys, k, watermarkTriggerKey)).Time.ns == ktime(k) && cls(deref(tget(c.timeKeys, k, watermarkTriggerKey)).GroupKey) == kpart(watermarkTriggerKey, 1, k) && c.timeFieldKeyIndex < len(deref(tget(c.timeKeys, k, watermarkTriggerKey)).GroupKey) && deref(tget(c.timeKeys, k, watermarkTriggerKey)).GroupKey[c.timeFieldKeyIndex].Time.ns == ktime(k))
+// KeyReceived files the key under (its event instant, its class); nothing else changes.
+//@ func (*WatermarkTrigger).KeyReceived
+//@   requires ri: wtRI(c)
+//@   requires index: c.timeFieldKeyIndex < len(key)
+//@   ensures ri: wtRI(c)
+//@   ensures added: thas(c.timeKeys, wk(c, key))
+//@   ensures frame: forallK(k, k != wk(c, key) ==> thas(c.timeKeys, k) == old(thas(c.timeKeys, k))) && c.watermark == old(c.watermark) && c.endOfStreamReached == old(c.endOfStreamReached)
+//@ func (*WatermarkTrigger).WatermarkReceived
+//@   ensures set: c.watermark == watermark
+//@ func (*WatermarkTrigger).EndOfStreamReached
+//@   ensures set: c.endOfStreamReached
+// Poll hands out — in ascending (instant, key) order, each once — exactly the filed keys whose instant is at or
+// below the watermark (all of them once the stream has ended) and removes exactly those; keys beyond the watermark stay
+// filed. (`complete` + `sorted` + `members`: the result is strictly ascending, hence duplicate-free, and lists precisely the due keys.)
+//@ spec due(c *WatermarkTrigger, k int) bool = c.endOfStreamReached || ktime(k) <= c.watermark.ns
+//@ func (*WatermarkTrigger).Poll
+//@   requires ri: wtRI(c)
+//@   ascend 1 invariant fields: c.timeFieldKeyIndex == old(c.timeFieldKeyIndex) && c.watermark == old(c.watermark) && c.timeKeys == old(c.timeKeys) && !c.endOfStreamReached
+//@   ascend 1 invariant ri: wtRI(c)
+//@   ascend 1 invariant tree: forallK(k, thas(c.timeKeys, k) == old(thas(c.timeKeys, k)))
+//@   ascend 1 invariant members: forall(j, 0, len(c.outputKeysSlice), c.timeFieldKeyIndex < len(c.outputKeysSlice[j]) && old(thas(c.timeKeys, now(wk(c, c.outputKeysSlice[j])))) && c.outputKeysSlice[j][c.timeFieldKeyIndex].Time.ns <= c.watermark.ns && wk(c, c.outputKeysSlice[j]) < ascbound())
+//@   ascend 1 invariant sorted: forall(p, 0, len(c.outputKeysSlice) - 1, wk(c, c.outputKeysSlice[p]) < wk(c, c.outputKeysSlice[p+1]))
+//@   ascend 1 invariant complete: forallK(k, old(thas(c.timeKeys, k)) && k < ascbound() ==> exists(j, 0, len(c.outputKeysSlice), wk(c, c.outputKeysSlice[j]) == k))
+//@   ascend 1 step stop: !continues ==> ktime(lastkey()) > c.watermark.ns && len(c.outputKeysSlice) == old(len(c.outputKeysSlice))
+//@   ascend 1 step prefix: forall(j, 0, old(len(c.outputKeysSlice)), same(c.outputKeysSlice[j], old(c.outputKeysSlice[j])))
+//@   ascend 1 step take: continues ==> ktime(lastkey()) <= c.watermark.ns && len(c.outputKeysSlice) == old(len(c.outputKeysSlice)) + 1 && wk(c, c.outputKeysSlice[len(c.outputKeysSlice)-1]) == lastkey()
+//@   ascend 1 exit complete: forallK(k, old(thas(c.timeKeys, k)) && due(c, k) ==> exists(j, 0, len(c.outputKeysSlice), wk(c, c.outputKeysSlice[j]) == k))
+//@   ascend 2 invariant fields: c.timeFieldKeyIndex == old(c.timeFieldKeyIndex) && c.watermark == old(c.watermark) && c.timeKeys == old(c.timeKeys) && c.endOfStreamReached
+//@   ascend 2 invariant ri: wtRI(c)
+//@   ascend 2 invariant tree: forallK(k, thas(c.timeKeys, k) == old(thas(c.timeKeys, k)))
+//@   ascend 2 invariant members: forall(j, 0, len(c.outputKeysSlice), c.timeFieldKeyIndex < len(c.outputKeysSlice[j]) && old(thas(c.timeKeys, now(wk(c, c.outputKeysSlice[j])))) && wk(c, c.outputKeysSlice[j]) < ascbound())
+//@   ascend 2 invariant sorted: forall(p, 0, len(c.outputKeysSlice) - 1, wk(c, c.outputKeysSlice[p]) < wk(c, c.outputKeysSlice[p+1]))
+//@   ascend 2 invariant complete: forallK(k, old(thas(c.timeKeys, k)) && k < ascbound() ==> exists(j, 0, len(c.outputKeysSlice), wk(c, c.outputKeysSlice[j]) == k))
+//@   ascend 2 step prefix: forall(j, 0, old(len(c.outputKeysSlice)), same(c.outputKeysSlice[j], old(c.outputKeysSlice[j])))
+//@   ascend 2 step take: continues && len(c.outputKeysSlice) == old(len(c.outputKeysSlice)) + 1 && wk(c, c.outputKeysSlice[len(c.outputKeysSlice)-1]) == lastkey()
+//@   ascend 2 exit complete: forallK(k, old(thas(c.timeKeys, k)) && due(c, k) ==> exists(j, 0, len(c.outputKeysSlice), wk(c, c.outputKeysSlice[j]) == k))
+//@   loop 1 invariant range: 0 <= $k && $k <= len(c.outputKeysSlice)
+//@   loop 1 invariant ri: wtRI(c)
+//@   loop 1 invariant members: forall(j, 0, len(c.outputKeysSlice), c.timeFieldKeyIndex < len(c.outputKeysSlice[j]) && old(thas(c.timeKeys, now(wk(c, c.outputKeysSlice[j])))) && (!c.endOfStreamReached ==> c.outputKeysSlice[j][c.timeFieldKeyIndex].Time.ns <= c.watermark.ns))
+//@   loop 1 invariant sorted: forall(p, 0, len(c.outputKeysSlice) - 1, wk(c, c.outputKeysSlice[p]) < wk(c, c.outputKeysSlice[p+1]))
+//@   loop 1 invariant complete: forallK(k, old(thas(c.timeKeys, k)) && due(c, k) ==> exists(j, 0, len(c.outputKeysSlice), wk(c, c.outputKeysSlice[j]) == k))
+//@   loop 1 invariant tree.sub: forallK(k, thas(c.timeKeys, k) ==> old(thas(c.timeKeys, k)) && forall(j, 0, $k, wk(c, c.outputKeysSlice[j]) != k))
+//@   loop 1 invariant tree.sup: forallK(k, old(thas(c.timeKeys, k)) && !thas(c.timeKeys, k) ==> exists(j, 0, $k, wk(c, c.outputKeysSlice[j]) == k))
+//@   ensures ri: wtRI(c)
+//@   ensures kept.sub: forallK(k, thas(c.timeKeys, k) ==> old(thas(c.timeKeys, k)) && !due(c, k))
+//@   ensures kept.sup: forallK(k, old(thas(c.timeKeys, k)) && !due(c, k) ==> thas(c.timeKeys, k))
+//@   ensures members: forall(j, 0, len(result), c.timeFieldKeyIndex < len(result[j]) && old(thas(c.timeKeys, now(wk(c, result[j])))) && (!c.endOfStreamReached ==> result[j][c.timeFieldKeyIndex].Time.ns <= c.watermark.ns))
+//@   ensures sorted: forall(p, 0, len(result) - 1, wk(c, result[p]) < wk(c, result[p+1]))
+//@   ensures complete: forallK(k, old(thas(c.timeKeys, k)) && due(c, k) ==> exists(j, 0, len(result), wk(c, result[j]) == k))
+//@   ensures frame: c.watermark == old(c.watermark) && c.endOfStreamReached == old(c.endOfStreamReached)
